@@ -24,11 +24,11 @@ const RULES: [&str; 9] = [
     "input ends before the end control byte",
 ];
 
-struct Mutant {
-    rule: usize,
-    bytes: Vec<u8>,
-    chunk: usize,
-    note: String,
+pub struct Mutant {
+    pub rule: usize,
+    pub bytes: Vec<u8>,
+    pub chunk: usize,
+    pub note: String,
 }
 
 /// Re-derive the model / history state at the start of chunk `ci` and decode
@@ -77,7 +77,7 @@ fn set_unpacked(bytes: &mut [u8], start: usize, control: u8, v: usize) {
     bytes[start + 2] = u as u8;
 }
 
-fn mutants(rng: &mut Rng, w: &Written, chunks: &[Chunk], tier: Tier, lenient: &mut u64) -> Vec<Mutant> {
+pub fn mutants(rng: &mut Rng, w: &Written, chunks: &[Chunk], tier: Tier, lenient: &mut u64) -> Vec<Mutant> {
     let mut ms = Vec::new();
     let per = tier.pick(6, 24);
     for (ci, info) in w.chunks.iter().enumerate() {
